@@ -155,13 +155,35 @@ fn jwk_from_json(v: serde_json::Value) -> Jwk {
   serde_json::from_value(v).expect("harness JWK deserialises")
 }
 
-/// BBS+ (BLS12381-SHA256) verification by the harness: zkryptium directly, own base64url decoding of the coordinates.
+/// The name of the BBS+ ciphersuite that `alg` does NOT name.
+fn other_bbs_suite(alg: Option<&str>) -> String {
+  use jsonprooftoken::jpa::algs::ProofAlgorithm;
+  if alg == Some(ProofAlgorithm::BLS12381_SHAKE256.to_string().as_str()) {
+    ProofAlgorithm::BLS12381_SHA256.to_string()
+  } else {
+    ProofAlgorithm::BLS12381_SHAKE256.to_string()
+  }
+}
+
+/// BBS+ verification by the harness, with the ciphersuite the key's own public JWK names in `alg` (SHA-256 or
+/// SHAKE-256): zkryptium directly, own base64url decoding of the coordinates.
 fn bbs_verify(public_jwk: &Jwk, messages: &[Vec<u8>], header: &[u8], sig: &[u8]) -> bool {
+  use zkryptium::bbsplus::ciphersuites::Bls12381Sha256;
+  use zkryptium::bbsplus::ciphersuites::Bls12381Shake256;
   use zkryptium::bbsplus::keys::BBSplusPublicKey;
   use zkryptium::schemes::algorithms::BBSplus;
-  use zkryptium::bbsplus::ciphersuites::Bls12381Sha256;
   use zkryptium::schemes::generics::Signature;
   let v = serde_json::to_value(public_jwk).unwrap_or_default();
+  if v.get("alg").and_then(|a| a.as_str()) == Some(jsonprooftoken::jpa::algs::ProofAlgorithm::BLS12381_SHAKE256.to_string().as_str()) {
+    let coord = |n: &str| -> Option<[u8; 96]> {
+      v.get(n).and_then(|x| x.as_str()).and_then(crate::engines::world::b64url_decode).and_then(|b| <[u8; 96]>::try_from(b.as_slice()).ok())
+    };
+    let (Some(x), Some(y)) = (coord("x"), coord("y")) else { return false };
+    let Ok(pk) = BBSplusPublicKey::from_coordinates(&x, &y) else { return false };
+    let Ok(sig80) = <[u8; 80]>::try_from(sig) else { return false };
+    let Ok(signature) = Signature::<BBSplus<Bls12381Shake256>>::from_bytes(&sig80) else { return false };
+    return signature.verify(&pk, Some(messages), Some(header)).is_ok();
+  }
   let coord = |n: &str| -> Option<[u8; 96]> {
     v.get(n).and_then(|x| x.as_str()).and_then(crate::engines::world::b64url_decode).and_then(|b| <[u8; 96]>::try_from(b.as_slice()).ok())
   };
@@ -627,13 +649,23 @@ async fn run_op(sh: &Shared, client: usize, op: Op) {
     Op::GenerateBbs => {
       kind = "generate_bbs";
       use identity_storage::JwkStorageBbsPlusExt;
-      result = match sh.jwk.generate_bbs(KeyType::new("BLS12381G2"), jsonprooftoken::jpa::algs::ProofAlgorithm::BLS12381_SHA256).await {
+      // (either ciphersuite; the harness verifies with the one the returned public JWK names)
+      let suite = if ctx::choose(3) == 0 {
+        ctx::stat("probe.bbs_key_for_shake256");
+        jsonprooftoken::jpa::algs::ProofAlgorithm::BLS12381_SHAKE256
+      } else {
+        jsonprooftoken::jpa::algs::ProofAlgorithm::BLS12381_SHA256
+      };
+      result = match sh.jwk.generate_bbs(KeyType::new("BLS12381G2"), suite).await {
         Ok(out) => {
           let id = out.key_id.as_str().to_owned();
           // (this path has no key-id seam: the id always comes from production code)
           sh.alias_always(&id);
           if sh.publics.borrow().contains_key(&id) || sh.bbs_pool.borrow().contains(&id) {
             ctx::violation("C15", "C15.generate_fresh_key_id", "generate_bbs/key-id-reused", format!("generate_bbs returned key id {id} which was issued before"));
+          }
+          if out.jwk.alg() != Some(suite.to_string().as_str()) {
+            ctx::violation("C15", "C15.generate_alg_as_requested", "generate_bbs/alg", format!("generate_bbs for {suite} returned a JWK with alg {:?}", out.jwk.alg()));
           }
           sh.bbs_pool.borrow_mut().push(id.clone());
           sh.bbs_publics.borrow_mut().insert(id.clone(), out.jwk.clone());
@@ -660,7 +692,7 @@ async fn run_op(sh: &Shared, client: usize, op: Op) {
         if ctx::choose(4) == 0 {
           if let Some(pk) = &arg_pk {
             let mut j = serde_json::to_value(pk).unwrap_or_default();
-            j["alg"] = jsonprooftoken::jpa::algs::ProofAlgorithm::BLS12381_SHAKE256.to_string().into();
+            j["alg"] = other_bbs_suite(j.get("alg").and_then(|a| a.as_str())).into();
             if let Ok(changed) = serde_json::from_value::<Jwk>(j) {
               arg_pk = Some(changed);
               other_suite = true;
@@ -711,7 +743,7 @@ async fn run_op(sh: &Shared, client: usize, op: Op) {
                   let mut upd_other_suite = false;
                   if ctx::choose(3) == 0 {
                     let mut j = serde_json::to_value(&own_pk).unwrap_or_default();
-                    j["alg"] = jsonprooftoken::jpa::algs::ProofAlgorithm::BLS12381_SHAKE256.to_string().into();
+                    j["alg"] = other_bbs_suite(j.get("alg").and_then(|a| a.as_str())).into();
                     if let Ok(changed) = serde_json::from_value::<Jwk>(j) {
                       upd_pk = changed;
                       upd_other_suite = true;
